@@ -566,7 +566,9 @@ extern int re_exec();
                                    __FUNCTION__, __FILE__, __LINE__); \
             } else { \
                 libast_print_warning("ASSERT failed in %s() at %s:%d:  This code should not be reached.\n", \
-                                     __FUNCTION__, __FILE__, __LINE__);} \
+                                     __FUNCTION__, __FILE__, __LINE__); \
+                return; \
+            } \
         } while (0)
 #   define ASSERT_NOTREACHED_RVAL(val) \
         do { \
